@@ -228,6 +228,13 @@ def judge(chk, spec, res):
         return
     cen = cen[0]
     probs = []
+    for e in evs:
+        if e.get('ev') == 'add_failed':
+            op = spec['ops'][e['step']]
+            if not (len(op) > 2 and op[2] == 'rejected'):
+                # nothing in the history explains a failing add_worker: the history did not exercise what it was meant to
+                chk.inconclusive('add_worker raised %s although its registration was not refused' % e['etype'], {'spec': spec, 'event': e})
+                return
     left = [e for e in evs if e.get('ev') == 'left']
     if left and left[0]['outcome'] != 'ok':
         probs.append('leaving-the-pool-%s' % left[0]['outcome'])
